@@ -276,6 +276,8 @@ struct Shared {               // created by the main thread before the workers s
     ascon_masked_key_160_t mk160;
     uint8_t key[20], nonce[16], ad[64], msg[256];
     uint8_t saved128a[ASCON_ISAP_SAVED_KEY_SIZE];
+    uint8_t slice_ct[13 + 16];  // one ISAP-A-128A packet (13-byte payload) that every thread may decrypt ...
+    uint8_t slices[16 * 13 + 8]; // ... into its own 13-byte slice of this buffer: neighbours touch, they never overlap
     ascon_xof_state_t xsrc;    // a partly absorbed XOF state and hash state that every thread may copy from
     ascon_hasha_state_t hsrc;
 };
@@ -299,11 +301,11 @@ struct ThreadCtx {
 // decryption (which receive the same shared const keys) run concurrently too
 #define TAMPER() do { if (tamper && clen) T.out[(sd >> 8) % clen] ^= (uint8_t)(1u << (sd & 7)); } while (0)
 
-static const int NOPK = 25;
+static const int NOPK = 26;
 static const char *opk_name[NOPK] = {"hash", "hasha", "xof", "aead128", "aead128a", "aead80pq", "inc128", "siv128", "siv80pq", "isap128_shared",
                                      "isap128a_shared", "isap80pq_shared", "masked128_shared", "masked80pq_shared", "prf_hmac", "kmac_hkdf", "random", "prng",
                                      "cpp_aead", "cpp_isap_saved_key", "cpp_hash_xof", "cpp_siv_masked",
-                                     "masked_key_toolkit", "copy_from_shared_reinit_hex_state", "prng_reseed_save_load"};
+                                     "masked_key_toolkit", "copy_from_shared_reinit_hex_state", "prng_reseed_save_load", "adjacent_output_slices"};
 
 // the ISAP classes take (key, len), the others take (key)
 template <class E> static auto make_keyed(const uint8_t *k, size_t klen) -> decltype(E(k, klen)) { return E(k, klen); }
@@ -485,6 +487,11 @@ static uint64_t run_op(ThreadCtx &T, const Op &op)
         LIB(ascon_random_init(&T.prng); ascon_random_fetch(&T.prng, T.out, 16); r = ascon_random_reseed(&T.prng); ascon_random_feed(&T.prng, m, mlen % 40);
             r += ascon_random_save_seed(&T.prng, &fs.st); r += ascon_random_load_seed(&T.prng, &fs.st); ascon_random_fetch(&T.prng, T.out + 16, 40); ascon_random_free(&T.prng));
         clen = 56; break; }
+    case 25: { // outputs of different threads lie next to each other in memory: a function may write its own bytes only
+        uint8_t *mine = S.slices + 13 * (size_t)(T.id % 16);
+        LIB(r = ascon128a_isap_aead_decrypt(mine, &plen, S.slice_ct, sizeof S.slice_ct, nullptr, 0, S.nonce, &S.ik128a));
+        memcpy(T.out, mine, 13);
+        clen = 13; plen = 0; break; }
     default: { // masked classes
         ++t_in_lib;
         switch (v % 3) {
@@ -591,6 +598,7 @@ struct ThreadsWorld : World {
         ascon128a_isap_aead_save_key(&sh->ik128a, sh->saved128a);
         ascon_masked_key_128_init(&sh->mk128, sh->key);
         ascon_masked_key_160_init(&sh->mk160, sh->key);
+        { size_t cl = 0; ascon128a_isap_aead_encrypt(sh->slice_ct, &cl, sh->msg, 13, nullptr, 0, sh->nonce, &sh->ik128a); memset(sh->slices, 0, sizeof sh->slices); }
         ascon_xof_init(&sh->xsrc);
         ascon_xof_absorb(&sh->xsrc, sh->msg, 13);
         ascon_hasha_init(&sh->hsrc);
